@@ -3,7 +3,8 @@ import os
 
 LEVEL = "other"
 TRUSTED = ["may-alias frame analysis (pyvc/framecheck.py): flow-insensitive taint from the tracks parameter; result of copy()/list()/dict()/"
-           "np.asarray()/comprehensions is fresh; repository callees are followed by parameter position (return aliasing per tuple component)",
+           "np.asarray()/comprehensions is fresh, whereas networkx views and accessors (subgraph(), nodes(data=True), edges(), .data(), .items(), .values(), .get()) "
+           "propagate the alias (they share the attribute dictionaries); a method name resolves to Tracks/SolutionTracks only on a `tracks`/`self` receiver; repository callees are followed by parameter position (return aliasing per tuple component)",
            "third-party calls that receive (a part of) the tracks are assumed read-only: geff.write, np.save, json.dump, pandas constructors, "
            "skimage.util.map_array, tifffile.imwrite (listed per function in coverage.frame_assumptions)"]
 EXPLANATION = ("DECIDED BY STATIC FRAME ANALYSIS of the real AST (one obligation per function under the frame contract, plus one per write-like "
@@ -32,6 +33,15 @@ QUERIES = [T + m for m in ("nodes", "edges", "in_degree", "out_degree", "predece
                            "has_track_id_at_time", "max_track_id", "track_id_to_node", "export_tracks")]
 
 
+import ast as _ast  # noqa: E402
+
+
+def _receiver_ok(recv, cls_qualname):
+    if cls_qualname.endswith("FeatureDict"):
+        return isinstance(recv, _ast.Attribute) and recv.attr == "features"
+    return isinstance(recv, _ast.Name) and recv.id in ("tracks", "self")
+
+
 def units(tier):
     return []
 
@@ -52,7 +62,10 @@ def analysis_obligations(tier):
         for q in ("funtracks.data_model.solution_tracks.SolutionTracks", "funtracks.data_model.tracks.Tracks",
                   "funtracks.features._feature_dict.FeatureDict"):
             f = R.get_class(q).find(cn)
-            if f and isinstance(call.func, __import__("ast").Attribute):
+            # a method name resolves to the tracks classes only on a receiver that can be such an object: `tracks.m()` /
+            # `self.m()` (Tracks, SolutionTracks) or `<...>.features.m()` (FeatureDict); `g.nodes(data=True)` on a
+            # networkx graph or view is third-party and must not be mistaken for Tracks.nodes (which returns a copy)
+            if f and isinstance(call.func, _ast.Attribute) and _receiver_ok(call.func.value, q):
                 return (f"{f[0].qualname}.{cn}", f[1])
         return None
 
